@@ -24,6 +24,7 @@ import (
 	"sort"
 	"strings"
 	"sync"
+	"time"
 
 	"github.com/olareg/olareg/internal/verif/vfs"
 	"github.com/olareg/olareg/internal/verif/vh"
@@ -65,6 +66,10 @@ func (e *env) monitor(ev vfs.Event) {
 	defer e.mu.Unlock()
 	e.nev++
 	check := func(p string) {
+		if p == e.root && ev.Mutating && (strings.HasPrefix(ev.Op, "remove") || strings.HasPrefix(ev.Op, "rename")) {
+			e.bad = append(e.bad, fmt.Sprintf("%s of the root directory itself (given as %q), during %s", ev.Op, ev.Raw, e.cur))
+			return
+		}
 		if p != e.root && !strings.HasPrefix(p, e.root+"/") {
 			e.bad = append(e.bad, fmt.Sprintf("%s %s (given as %q) is outside the root, during %s", ev.Op, p, ev.Raw, e.cur))
 			return
@@ -119,7 +124,7 @@ func addressed(rq vh.Req, kind vh.StoreKind) []string {
 	return out
 }
 
-func snapshotOutside(outer, root string) string {
+func snapshotOutside(outer, root string, more ...string) string {
 	var l []string
 	_ = filepath.Walk(outer, func(p string, fi os.FileInfo, err error) error {
 		if err != nil {
@@ -127,6 +132,11 @@ func snapshotOutside(outer, root string) string {
 		}
 		if p == root {
 			return filepath.SkipDir
+		}
+		for _, m := range more {
+			if p == m {
+				return filepath.SkipDir
+			}
 		}
 		s := fmt.Sprintf("%s %v %d %v", strings.TrimPrefix(p, outer), fi.Mode(), fi.Size(), fi.ModTime().UnixNano())
 		if !fi.IsDir() {
@@ -167,7 +177,9 @@ func batch(r *vh.Run, i int) {
 	defer unreg()
 	p := vh.Neutral
 	p.EmptyRepo = i%3 == 0
-	srv := vh.New(vh.Conf(kind, root, p))
+	// the configured root is not always in canonical form (`--dir mirror/`, `--dir ./data`): the same directory
+	spelled := []string{root, root + "/", filepath.Dir(root) + "/./" + filepath.Base(root), root + "/."}[(i/4)%4]
+	srv := vh.New(vh.Conf(kind, spelled, p))
 	u := vh.GenUniverse(rng, vh.UOpts{Tag: fmt.Sprint(i), NArtifact: 3})
 	do := func(rq vh.Req) vh.Resp {
 		e.mu.Lock()
@@ -387,6 +399,16 @@ func batch(r *vh.Run, i int) {
 			}
 			rq := reqs[rng.Intn(len(reqs))]
 			rs := do(rq)
+			if rng.Intn(2) == 0 {
+				// the same request again, twice: an answer must not depend on having been asked before
+				for rep := 0; rep < 2; rep++ {
+					if again := do(rq); again.Status/100 != rs.Status/100 && rq.Method != "PUT" && rq.Method != "DELETE" {
+						viol("hostile:answer-changes-on-repeat", fmt.Sprintf("%s %s answered %d, repeated: %d", rq.Method, rq.URL, rs.Status, again.Status))
+						ok = false
+					}
+				}
+				r.Count("hostile_requests_repeated", 1)
+			}
 			if rq.Method == "PUT" && strings.HasSuffix(rq.URL, "/manifests/evil") {
 				r.Count("hostile_manifest_bodies", 1)
 				if rs.Status == 201 && !strings.Contains(string(rq.Body), `"subject"`) {
@@ -451,6 +473,46 @@ func batch(r *vh.Run, i int) {
 		viol("outside-changed", "the tree outside the root changed:\nbefore:\n"+before+"\nafter:\n"+after)
 	}
 	r.Count("sentinel_comparisons", 1)
+	if kind != vh.Mem {
+		// a second store whose only (nested) repository becomes empty and is collected: whatever the store tidies up
+		// afterwards, its root directory stays and nothing above it is touched
+		root2 := filepath.Join(outer, "root2")
+		_ = os.MkdirAll(root2, 0o755)
+		before2 := snapshotOutside(outer, root, root2)
+		e.mu.Lock()
+		e.root = root2
+		e.mu.Unlock()
+		sp2 := []string{root2 + "/", filepath.Dir(root2) + "/./root2", root2, root2 + "/."}[(i/4)%4]
+		p2 := vh.Policy{Untagged: true, Dangling: true, WithSubj: true, EmptyRepo: true, Grace: -1}
+		s2 := vh.New(vh.Conf(kind, sp2, p2))
+		nb := []byte(fmt.Sprintf("lonely %d", i))
+		nd := vh.DigestOf("sha256", nb)
+		for _, rq := range []vh.Req{{Method: "POST", URL: "/v2/x/y/z/blobs/uploads/?digest=" + nd, Body: nb}, {Method: "DELETE", URL: "/v2/x/y/z/blobs/" + nd}} {
+			e.mu.Lock()
+			e.addr, e.cur = addressed(rq, kind), rq.Method+" "+rq.URL
+			e.mu.Unlock()
+			vh.Do(s2, rq)
+		}
+		e.mu.Lock()
+		e.addr, e.cur = []string{"*"}, "collection of a store whose only repository is empty"
+		e.mu.Unlock()
+		_ = s2.VerifGC(context.Background(), "x/y/z")
+		now := time.Now()
+		_ = s2.VerifGCPass(now, now.Add(-time.Second))
+		_ = s2.Close()
+		r.Count("emptied_store_trials", 1)
+		flush()
+		if after2 := snapshotOutside(outer, root, root2); after2 != before2 {
+			viol("outside-changed", "emptied store: the tree outside the root changed:\nbefore:\n"+before2+"\nafter:\n"+after2)
+		}
+		if fi, err := os.Stat(root2); err != nil || !fi.IsDir() {
+			viol("root-removed", fmt.Sprintf("after its only repository x/y/z was emptied and collected the configured root directory (given as %q) is gone", sp2))
+		}
+		e.mu.Lock()
+		e.root = root
+		e.mu.Unlock()
+		_ = os.RemoveAll(root2)
+	}
 	r.Count("batches", 1)
 	e.mu.Lock()
 	r.Count("fs_events_checked", e.nev)
